@@ -14,6 +14,8 @@ def run(prop, tier):
     L, N, ns = (5, 3, 16) if tier == "quick" else (6, 4, 16)
     jobs = [["robust", L, s, ns] for s in range(ns)] + [["grammar", N, s, ns] for s in range(ns)] + [["long"]]
     common.parallel(lambda j: common.run_harness(x, j, acc, "ini_enum " + " ".join(map(str, j)), timeout=7000, crash_prop=prop), jobs)
+    from checks import indep
+    indep_rule = indep.add(prop, tier, acc)
     s = acc.stats
     cov = dict(evaluations=s.get("evaluations", 0), distinct_nontrivial=s.get("nontrivial", 0),
                rule="(a) every byte string of length <= %d over the 18-symbol alphabet {[ ] = \" ' ; # space a \\n NUL EF BB BF FF FE { }} parsed from a memfd: parse returns, every listed section has >= 1 key, "
@@ -21,7 +23,7 @@ def run(prop, tier):
                     "(b) every file of <= %d lines over 23 documented line kinds (blank, comments with and without '=', sections, quoting styles, comment markers inside quotes, '=' in values, lists, "
                     "numbers, booleans, trailing comments), with and without a UTF-8 BOM, compared with a reference parser written from pinifile.h: sections, keys, last-assignment-wins values, "
                     "int/double/boolean/list getters, defaults. non-trivial = (section,key) pairs whose value was checked" % (L, N),
-               exhaustive=True, grammar_files_not_judged=s.get("grammar_files_not_judged_repeated_section", 0))
+               exhaustive=True, independent_objects=indep_rule.strip('; '), grammar_files_not_judged=s.get("grammar_files_not_judged_repeated_section", 0))
     return common.finish(prop, tier, "exploration", acc, cov,
                          ["files that open the same section name twice are checked for robustness only (merging is not documented)",
                           "lines longer than the 1024-byte limit are checked for robustness only"], t0)
